@@ -12,3 +12,18 @@ void fixtureUniqueGood(std::vector<int> &v)
     std::sort(v.begin(), v.end());
     v.erase(std::unique(v.begin(), v.end()), v.end());
 }
+
+// Binary searches need a sorted range (rule_sorted_search).
+bool fixtureSearchBad(std::vector<int> &seen, int x)
+{
+    auto it = std::lower_bound(seen.begin(), seen.end(), x); // seen is kept in insertion order
+    bool found = (it != seen.end()) && (*it == x);
+    seen.push_back(x);
+    return found;
+}
+
+bool fixtureSearchGood(std::vector<int> &seen, int x)
+{
+    std::sort(seen.begin(), seen.end());
+    return std::binary_search(seen.begin(), seen.end(), x);
+}
